@@ -206,13 +206,14 @@ Proof.
   intros Hi. unfold handle_mb_failure.
   destruct (set_mode RO f1 s) as [s1 o] eqn:E.
   destruct (set_mode_spec _ _ _ _ _ Hi E) as (K & I & R & C).
-  destruct o.
-  - intros H. inversion H; subst. repeat split; auto; discriminate.
+  cbn in R. destruct o.
+  - intros H. inversion H; subst.
+    split; [exact K|]. split; [exact I|]. split; [discriminate|].
+    intros _. split; [apply C; reflexivity | left; exact R].
   - intros H. destruct (set_mode_spec _ _ _ _ _ I H) as (K2 & I2 & R2 & C2).
-    repeat split; eauto using keeps_trans.
-    + intros ->. congruence.
-    + intros ->. auto.
-    + intros ->. auto.
+    split; [eapply keeps_trans; eauto|]. split; [exact I2|]. split.
+    + intros ->. cbn in R2. congruence.
+    + intros ->. cbn in R2. split; [apply C2; reflexivity | right; exact R2].
 Qed.
 
 (* ---------------------------------------------------------------- operations keep the modes *)
@@ -270,14 +271,17 @@ Proof.
   unfold mb_in in M. unfold bl_in in B. cbn in M, B.
   apply andb_prop in M. destruct M as [M1 M2]. apply md_eqb_eq in M1. subst mmd.
   apply eqb_prop in B. subst bro.
+  assert (T : forall (b : bool) (A : Type) (u : A), (if b then u else u) = u) by (intros []; reflexivity).
   destruct w.
   - specialize (W eq_refl). unfold wc_in in W. cbn in W. apply andb_prop in W. destruct W as [W1 W2].
     apply md_eqb_eq in W1. subst wmd.
     destruct r, mop as [[]|]; cbn in M2; try discriminate; destruct wro; cbn in W2; try discriminate;
-      destruct x; try discriminate; vm_compute; try reflexivity; destruct iw; reflexivity.
+      destruct x; try discriminate; cbn -[mem add del union]; try reflexivity;
+      try (destruct (mem id im); reflexivity); destruct iw; reflexivity.
   - clear W.
     destruct r, mop as [[]|]; cbn in M2; try discriminate;
-      destruct x; try discriminate; vm_compute; try reflexivity; destruct iw; reflexivity.
+      destruct x; try discriminate; cbn -[mem add del union]; try reflexivity;
+      try (destruct (mem id im); reflexivity); destruct iw; reflexivity.
 Qed.
 
 (* ---------------------------------------------------------------- histories *)
@@ -340,8 +344,142 @@ Theorem consistent_partial wc h x :
   last_switch_failed wc h = false -> is_op x = true ->
   snd (fst (do_step (after wc h) x)) = ref_res (rep (after wc h)) wc x.
 Proof.
-  intros Hb Hop. destruct (after_inv wc h) as [_ W]. rewrite <- W at 2. apply consistent_ref; [|exact Hop].
-  unfold last_switch_failed in Hb. unfold after. destruct (run (init wc) true h) as [s b] eqn:E. cbn in *.
-  apply negb_false_iff in Hb. subst b.
-  destruct (init_inv wc) as [I C]. destruct (run_spec h _ _ _ _ I (fun _ => C) E) as (_ & _ & C2). auto.
+  intros Hb Hop. destruct (after_inv wc h) as [_ W].
+  assert (Hc : consistent (after wc h) = true).
+  { unfold last_switch_failed in Hb. unfold after. destruct (run (init wc) true h) as [s b] eqn:E. cbn in *.
+    apply negb_false_iff in Hb. subst b.
+    destruct (init_inv wc) as [I C]. destruct (run_spec h _ _ _ _ I (fun _ => C) E) as (_ & _ & C2). auto. }
+  pose proof (consistent_ref _ x Hc Hop) as R. rewrite W in R. exact R.
+Qed.
+
+(* ---------------------------------------------------------------- clause 1 is false in general *)
+(* no write-cache; put an object; SetMode(read-only) with the metabase impossible to reopen: the
+   storage is read-only already, the shard still reports read-write -> a put is refused, a get fails *)
+Definition refuting_history : list step := [SPut 0; SSet RO FMbOpen].
+Theorem consistent_refuted :
+  exists wc h x, is_op x = true /\ last_switch_failed wc h = true
+    /\ ref_res (rep (after wc h)) wc x = Done
+    /\ snd (fst (do_step (after wc h) x)) <> ref_res (rep (after wc h)) wc x.
+Proof.
+  exists false, refuting_history, (SPut 1). vm_compute. repeat split; discriminate.
+Qed.
+Theorem consistent_refuted_get :
+  snd (fst (do_step (after false refuting_history) (SGet 0))) = Other
+  /\ ref_res (rep (after false refuting_history)) false (SGet 0) = Done.
+Proof. vm_compute. split; reflexivity. Qed.
+
+(* ---------------------------------------------------------------- a successful switch *)
+Theorem switch_success_consistent wc h m f s' :
+  set_mode m f (after wc h) = (s', true) ->
+  rep s' = m /\ consistent s' = true /\ forall x, is_op x = true -> snd (fst (do_step s' x)) = ref_res m wc x.
+Proof.
+  intros E. destruct (after_inv wc h) as [I W].
+  destruct (set_mode_spec _ _ _ _ _ I E) as ((Kw & _) & I2 & R & C). cbn in R.
+  split; [exact R|]. split; [auto|].
+  intros x Hop. rewrite (consistent_ref s' x (C eq_refl) Hop), R, Kw, W. reflexivity.
+Qed.
+
+Lemma held_keeps s s' id : keeps s s' -> held id s = true -> held id s' = true.
+Proof.
+  intros (Kw & _ & K3 & K4 & _). unfold held. rewrite Kw. intros H.
+  apply orb_true_iff in H. apply orb_true_iff. destruct H as [H|H].
+  - apply andb_prop in H. destruct H as [H1 H2]. rewrite H1. apply mem_In in H2.
+    destruct (K4 _ H2) as [H3|H3]; [left | right]; cbn; apply mem_In; exact H3.
+  - right. apply mem_In. apply K3. apply mem_In. exact H.
+Qed.
+
+(* no mode switch, successful or not, loses an object or a metadata record *)
+Theorem contents_intact wc h :
+  (forall m f, let s := after wc h in let s' := fst (set_mode m f s) in
+     in_meta s' = in_meta s /\ forall id, held id s = true -> held id s' = true)
+  /\ (forall f1 f2, let s := after wc h in let s' := fst (handle_mb_failure f1 f2 s) in
+     in_meta s' = in_meta s /\ forall id, held id s = true -> held id s' = true).
+Proof.
+  destruct (after_inv wc h) as [I _]. split.
+  - intros m f. cbn. destruct (set_mode m f (after wc h)) as [s' o] eqn:E. cbn.
+    destruct (set_mode_spec _ _ _ _ _ I E) as (K & _). split; [apply K|]. intros id. apply held_keeps. exact K.
+  - intros f1 f2. cbn. destruct (handle_mb_failure f1 f2 (after wc h)) as [s' o] eqn:E. cbn.
+    destruct (hmf_spec _ _ _ _ _ I E) as (K & _). split; [apply K|]. intros id. apply held_keeps. exact K.
+Qed.
+
+(* clause 2: after ANY history (failed switches included) a successful switch to read-write
+   leaves every component read-write, every operation answers as in read-write mode (all accepted;
+   FlushWriteCache without a write-cache says so), and every object that had metadata and data
+   before the switch is handed out *)
+Theorem back_to_rw wc h f s' :
+  set_mode RW f (after wc h) = (s', true) ->
+  rep s' = RW /\ mbm s' = (RW, Some false) /\ blob_ro s' = false /\ (wc = true -> wcm s' = (RW, false))
+  /\ (forall x, is_op x = true ->
+        snd (fst (do_step s' x)) = (if negb wc then match x with SFlush => ErrNoWC | _ => Done end else Done))
+  /\ (forall id, mem id (in_meta (after wc h)) = true -> held id (after wc h) = true -> do_get id s' = (Done, true)).
+Proof.
+  intros E. destruct (after_inv wc h) as [I W].
+  destruct (switch_success_consistent _ _ _ _ _ E) as (R & C & Ops).
+  destruct (set_mode_spec _ _ _ _ _ I E) as (K & I2 & _ & _).
+  destruct (consistent_fields _ C) as (M & B & Wc). rewrite R in M, B, Wc.
+  assert (Hm : mbm s' = (RW, Some false)).
+  { destruct (mbm s') as [[] [[]|]]; cbn in M; try discriminate; reflexivity. }
+  assert (Hb : blob_ro s' = false).
+  { unfold bl_in in B. unfold blob_ro. destruct (snd (blm s')); cbn in B; [discriminate | reflexivity]. }
+  split; [exact R|]. split; [exact Hm|]. split; [exact Hb|]. split.
+  { intros ->. destruct K as (Kw & _). rewrite W in Kw. specialize (Wc Kw).
+    destruct (wcm s') as [[] []]; cbn in Wc; try discriminate; reflexivity. }
+  split.
+  { intros x Hop. rewrite (Ops x Hop). destruct wc, x; try discriminate; reflexivity. }
+  intros id Hmeta Hheld.
+  pose proof (held_keeps _ _ id K Hheld) as H2. destruct K as (_ & Km & _). rewrite <- Km in Hmeta.
+  unfold do_get, mb_read. rewrite R, Hm. cbn. rewrite Hmeta, H2. reflexivity.
+Qed.
+
+(* the reported mode is the target exactly when the switch succeeded, else it is unchanged *)
+Theorem reported_mode wc h m f :
+  rep (fst (set_mode m f (after wc h))) = if snd (set_mode m f (after wc h)) then m else rep (after wc h).
+Proof.
+  destruct (after_inv wc h) as [I _]. destruct (set_mode m f (after wc h)) as [s' o] eqn:E. cbn.
+  now destruct (set_mode_spec _ _ _ _ _ I E) as (_ & _ & R & _).
+Qed.
+
+(* no reachable state makes an operation dereference a closed metabase *)
+Lemma no_panic_inv s x : inv s = true -> snd (fst (do_step s x)) <> Panic.
+Proof.
+  intros Hi. destruct x; cbn [do_step].
+  - destruct (set_mode m f s) as [s1 []]; cbn; discriminate.
+  - destruct (handle_mb_failure f1 f2 s) as [s1 []]; cbn; discriminate.
+  - destruct s as [r w [wmd wro] [sm bro] [mmd mop] iw ib im]. unfold inv in Hi. cbn in Hi.
+    apply andb_prop in Hi. destruct Hi as [Hi _]. unfold mb_inv, mb_in in Hi. cbn in Hi.
+    destruct mmd, mop as [[]|]; cbn in Hi; try discriminate; unfold do_put; cbn -[mem add del union];
+      repeat (match goal with |- context [if ?b then _ else _] => destruct b end; cbn -[mem add del union]); discriminate.
+  - destruct s as [r w [wmd wro] [sm bro] [mmd mop] iw ib im]. unfold inv in Hi. cbn in Hi.
+    apply andb_prop in Hi. destruct Hi as [Hi _]. unfold mb_inv, mb_in in Hi. cbn in Hi.
+    destruct mmd, mop as [[]|]; cbn in Hi; try discriminate; unfold do_get; cbn -[mem add del union held];
+      repeat (match goal with |- context [if ?b then _ else _] => destruct b end; cbn -[mem add del union held]); discriminate.
+  - destruct s as [r w [wmd wro] [sm bro] [mmd mop] iw ib im]. unfold inv in Hi. cbn in Hi.
+    apply andb_prop in Hi. destruct Hi as [Hi _]. unfold mb_inv, mb_in in Hi. cbn in Hi.
+    destruct mmd, mop as [[]|]; cbn in Hi; try discriminate; unfold do_del; cbn -[mem add del union];
+      repeat (match goal with |- context [if ?b then _ else _] => destruct b end; cbn -[mem add del union]); discriminate.
+  - destruct s as [r w [wmd wro] [sm bro] [mmd mop] iw ib im]. unfold inv in Hi. cbn in Hi.
+    apply andb_prop in Hi. destruct Hi as [Hi _]. unfold mb_inv, mb_in in Hi. cbn in Hi.
+    destruct mmd, mop as [[]|]; cbn in Hi; try discriminate; unfold do_exists; cbn -[mem add del union];
+      repeat (match goal with |- context [if ?b then _ else _] => destruct b end; cbn -[mem add del union]); discriminate.
+  - destruct s as [r w [wmd wro] [sm bro] [mmd mop] iw ib im]. unfold inv in Hi. cbn in Hi.
+    apply andb_prop in Hi. destruct Hi as [Hi _]. unfold mb_inv, mb_in in Hi. cbn in Hi.
+    destruct mmd, mop as [[]|]; cbn in Hi; try discriminate; unfold do_list; cbn;
+      repeat (match goal with |- context [if ?b then _ else _] => destruct b end; cbn); discriminate.
+  - unfold do_flush. destruct (has_wc s); cbn; [|discriminate].
+    destruct (ro (rep s)); cbn; [discriminate|]. destruct (nometa (rep s)); cbn; [discriminate|].
+    destruct (wc_flush s); cbn; discriminate.
+  - cbn. discriminate.
+Qed.
+Theorem no_crash wc h x : snd (fst (do_step (after wc h) x)) <> Panic.
+Proof. apply no_panic_inv. apply after_inv. Qed.
+
+(* the repairs make a failed switch recoverable: from any reachable state a switch to a mode with
+   a metabase in which no component call fails succeeds (so SetMode(read-write) brings back full
+   service, by back_to_rw) *)
+Theorem failed_switch_recoverable wc h m :
+  nometa m = false -> snd (set_mode m FNone (after wc h)) = true.
+Proof.
+  intros Hm. generalize (after wc h). intros s.
+  destruct s as [r w [wmd wro] [sm bro] [mmd mop] iw ib im]. unfold set_mode, comps. cbn [has_wc].
+  destruct m; try discriminate; destruct w, mmd, sm as [[]|]; reflexivity.
 Qed.
